@@ -1601,18 +1601,21 @@ bus_connection_complete (DBusConnection   *connection,
       return FALSE;
     }
   
+  /* Create and cache a string which holds information about the 
+   * peer process; used for logging purposes.
+   */
+  if (!cache_peer_loginfo_string (d, connection))
+    goto fail;
+
+  /* This must be the last step that can fail: the fail label does
+   * not undo it, and only a completed connection gives the count
+   * back when it disconnects. */
   if (dbus_connection_get_unix_user (connection, &uid))
     {
       if (!adjust_connections_for_uid (d->connections,
                                        uid, 1))
         goto fail;
     }
-
-  /* Create and cache a string which holds information about the 
-   * peer process; used for logging purposes.
-   */
-  if (!cache_peer_loginfo_string (d, connection))
-    goto fail;
 
   /* Now the connection is active, move it between lists */
   _dbus_list_unlink (&d->connections->incomplete,
